@@ -36,10 +36,12 @@ Cells == {"op.DefaultEndpoints", "op.DefaultSupportedClaims", "op.DefaultSupport
           \* response is that URL - without anything left over from an earlier response of either provider
           "userFormProviderB.verificationURI",
           \* a url.Values the caller hands to rp.ClientCredentials as endpointParams (and keeps using for other relying parties)
-          "callerEndpointParams"}
+          "callerEndpointParams",
+          \* a provider built earlier from an issuer function value (op.IssuerFromHost) that later constructions reuse: its issuer stays https
+          "sharedIssuerFuncProvider.issuer"}
 \* cells that have one right value at any time (o.unhealthy lists those that do not show it after the program)
 Healthy == {"callerInterceptorChain", "routerA2.interceptorOrder", "providerA.tokenSignature", "providerB.tokenSignature",
-            "dynProvider.tenantA.ownHint", "dynProvider.tenantB.ownHint", "dynProvider.tenantB.foreignHint", "sharedKeySet.servesFromCache", "userFormProviderB.verificationURI"}
+            "dynProvider.tenantA.ownHint", "dynProvider.tenantB.ownHint", "dynProvider.tenantB.foreignHint", "sharedKeySet.servesFromCache", "userFormProviderB.verificationURI", "sharedIssuerFuncProvider.issuer"}
 
 Ops == {"op.NewProvider", "op.NewProvider+WithCustomAuthEndpoint", "op.NewProvider+WithCustomTokenEndpoint", "op.NewProvider+WithCustomIntrospectionEndpoint",
         "op.NewProvider+WithCustomUserinfoEndpoint", "op.NewProvider+WithCustomRevocationEndpoint", "op.NewProvider+WithCustomEndSessionEndpoint",
@@ -53,7 +55,8 @@ Ops == {"op.NewProvider", "op.NewProvider+WithCustomAuthEndpoint", "op.NewProvid
         "keySet.verify(good)", "keySet.verify(unknownKid)", "keySet.verify(noKid)",
         \* an implicit-flow callback at a provider whose signing key does not fit the algorithm it announces (the signer cannot be created)
         "brokenSignerProvider.implicitCallback",
-        "userFormProviderA.deviceAuthorization", "userFormProviderB.deviceAuthorization", "rp.ClientCredentials(jwtProfileRP, callerParams)"}
+        "userFormProviderA.deviceAuthorization", "userFormProviderB.deviceAuthorization", "rp.ClientCredentials(jwtProfileRP, callerParams)",
+        "op.NewProvider(sharedIssuerFunc)+WithAllowInsecure", "op.NewProvider(sharedIssuerFunc)"}
 
 \* what the library promises to write on shared cells
 WriteSet(op) == {}
